@@ -454,8 +454,18 @@ func cmdReplay(args []string) int {
 	if e.Race {
 		reps = 20 // schedules are not reproducible: repeat the workload
 	}
+	if strings.HasPrefix(v.Directed, "race:") || v.Case < -1 {
+		// a race report or a died child is not tied to one case: re-run the quick workload in this
+		// (race-instrumented) process; the race detector prints its reports to stderr and the
+		// process exits with status 66 when it saw one.
+		fmt.Printf("replay: re-running the quick workload of %s under the race detector (reports go to stderr)\n", v.Prop)
+		for i := 0; i < e.Cases("quick"); i++ {
+			e.RunCase(res, "quick", v.Seed, i, false)
+		}
+		reps = 0
+	}
 	for k := 0; k < reps; k++ {
-		if v.Directed != "" {
+		if v.Directed != "" && e.Directed != nil {
 			for _, d := range e.Directed() {
 				if d.ID == v.Directed {
 					e.RunDirected(res, v.Tier, v.Seed, d, true)
